@@ -908,6 +908,12 @@ pub fn c20(case: &Case) -> Verdict {
                             s, g, p, nm(&infos[u]), label, sanitise(&infos[u].name)
                         ));
                     }
+                    if label.is_empty() || !label.chars().all(|c| c.is_alphanumeric() || c == '_') {
+                        return Fails(format!(
+                            "stage {} group {} position {} runs {} but the printed plan shows `{}` there, which is neither a sanitised name nor a placeholder",
+                            s, g, p, nm(&infos[u]), label
+                        ));
+                    }
                     if infos[u].name.is_empty() {
                         // a placeholder must not pass for one of the named systems of this builder
                         if infos.iter().any(|o| o.parent.is_none() && !o.name.is_empty() && sanitise(&o.name) == *label) {
